@@ -199,6 +199,15 @@ Fixpoint eval_expr (m : sol) (e : expr) : option val :=
   | EBound v => Some (VBool (match nth v m None with Some _ => true | None => false end))
   end.
 
+(** the variables an expression mentions *)
+Fixpoint expr_vars (e : expr) : list nat :=
+  match e with
+  | EVar v | EBound v => [v]
+  | EConst _ => []
+  | ECmp _ a b | EAnd a b | EOr a b => expr_vars a ++ expr_vars b
+  | ENot a => expr_vars a
+  end.
+
 (** FILTER keeps a solution iff the effective boolean value is true (an error drops it) *)
 Definition holds (e : expr) (m : sol) : bool :=
   match ebv (eval_expr m e) with Some true => true | _ => false end.
